@@ -10,6 +10,7 @@ import (
 	"os"
 	"sort"
 	"strings"
+	"sync"
 	"time"
 
 	"diagonal.works/b6"
@@ -206,6 +207,11 @@ func runStatic(data json.RawMessage) vh.Verdict {
 				w = ingest.NewOverlayWorld(uw, bw)
 			}
 			exp = expState{Eff: c.Layered, Obs: c.LObs}
+		case "concurrent-basic":
+			w, err = buildBasicFromSource(c.Src, cores)
+		case "concurrent-compact":
+			compactFamily = true
+			w, err = buildCompactWorld(c.Src, cores)
 		case "diff":
 			// C02: the compact world and the in-memory world built from the same source give the same answers
 			return
@@ -229,6 +235,47 @@ func runStatic(data json.RawMessage) vh.Verdict {
 	var got obs.Observation
 	if !obs.WithDeadline(20*time.Second, func() { got = obs.Observe(w, c.IDs, opts) }) {
 		return vh.Verdict{OK: false, Key: cm.class + ":observe:hang", Msg: "observation did not finish within 20 s"}
+	}
+	if strings.HasPrefix(c.Impl, "concurrent-") {
+		// C35: a world with no writers answers every query the same whatever else is being asked concurrently
+		// (StaticWorld has no write action: Next == UNCHANGED vars).  G goroutines observe the same world R times.
+		copts := opts
+		copts.Geometry = true
+		copts.Traverse = true
+		alone := obs.Observe(w, c.IDs, copts)
+		const G, R = 8, 3
+		results := make([][]obs.Observation, G)
+		var wg sync.WaitGroup
+		finished := obs.WithDeadline(60*time.Second, func() {
+			for g := 0; g < G; g++ {
+				wg.Add(1)
+				go func(g int) {
+					defer wg.Done()
+					ids := append([]string{}, c.IDs...)
+					// every goroutine probes in a different order so that caches are contended
+					for i := range ids {
+						j := (i*7 + g*3) % len(ids)
+						ids[i], ids[j] = ids[j], ids[i]
+					}
+					for r := 0; r < R; r++ {
+						results[g] = append(results[g], obs.Observe(w, ids, copts))
+					}
+				}(g)
+			}
+			wg.Wait()
+		})
+		if !finished {
+			cm.add(-1, "concurrent", "hang", "concurrent observation did not finish within 60 s")
+		} else {
+			want := obs.Canon(alone)
+			for g := range results {
+				for r := range results[g] {
+					if obs.Canon(results[g][r]) != want {
+						cm.add(-1, "concurrent", "differs:"+firstDiffWithGeometry(alone, results[g][r]), fmt.Sprintf("goroutine %d round %d observed %s, alone the world answers %s", g, r, obs.Canon(results[g][r]), want))
+					}
+				}
+			}
+		}
 	}
 	// compareObs needs a step index for op signatures: use the synthetic step -1 ("init")
 	cm.compareObs(-1, "", exp, got)
@@ -382,4 +429,17 @@ func runDiff(c *staticCase, cm *comparer, cores int) vh.Verdict {
 		v.Obs = map[string]interface{}{"mismatches": ms}
 	}
 	return v
+}
+
+func firstDiffWithGeometry(a, b obs.Observation) string {
+	if d := firstDiff(a, b); d != "other" {
+		return d
+	}
+	if obs.Canon(a.Geometry) != obs.Canon(b.Geometry) {
+		return "geometry"
+	}
+	if obs.Canon(a.Traverse) != obs.Canon(b.Traverse) {
+		return "traverse"
+	}
+	return "other"
 }
